@@ -38,7 +38,8 @@ def run(ck: Check):
     q = ck.quick
     budget = {"truncations": 24 if q else 120, "flips": 20 if q else 60, "structural": 22 if q else 50, "prefix": 3 if q else 6,
               "random": 6 if q else 12, "event_faults": 10 if q else 25, "json_truncations": 10 if q else 40,
-              "json_flips": 8 if q else 25, "json_structural": 16 if q else 50, "json_random": 5 if q else 12}
+              "json_flips": 8 if q else 25, "json_structural": 16 if q else 50, "json_random": 5 if q else 12,
+              "encodings": 5 if q else 20, "json_noclass": 6 if q else 25, "json_generic": 10 if q else 40}
     jobs = make_jobs(ck, "c15", EXTRAS_C15, ck.n(8, 36), budget)
     if getattr(ck, "replay_file", None):
         rp = json.load(open(ck.replay_file))["replay"]
